@@ -7,7 +7,9 @@ through a prefix at each depth with few or many other accepted packages, is eval
 accepted helper changes its signature, editing a non-accepted module does not; a data function of a
 non-accepted module is refused with an error naming the module and is not executed.
 """
+import importlib
 import json
+import sys
 from pathlib import PurePosixPath
 
 from . import common, ws
@@ -187,6 +189,58 @@ def run(ctx):
                     break
             res.count("e2e_" + form)
         res.sample(case)
+        # a package whose __init__ re-exports a function of one of its sub-modules; only the sub-package is accepted, and the caller
+        # reaches the function through the package (import pkg; pkg.clean(...)): it is an object of an accepted module. (The variable
+        # RATE re-exported next to it is, read as pkg.RATE, a variable of the non-accepted package: an edit of it changes nothing.)
+        for facade_accepts in ("core", "core.steps"):
+            for p in list(_accepted_packages):
+                if p not in before:
+                    _accepted_packages.discard(p)
+            root = w.unique("c14f")
+            import os as _os
+            _os.makedirs(_os.path.join(w.dir, root, "core"))
+
+            def steps_src(v, rate):
+                return "RATE = %d\n\ndef clean(x):\n    return 'clean%d(%%s)' %% x\n" % (rate, v)
+            with open(_os.path.join(w.dir, root, "core", "__init__.py"), "w") as fh:
+                fh.write("")
+            with open(_os.path.join(w.dir, root, "core", "steps.py"), "w") as fh:
+                fh.write(steps_src(1, 1))
+            with open(_os.path.join(w.dir, root, "__init__.py"), "w") as fh:
+                fh.write("from .core.steps import clean, RATE\n")
+            dds.accept_module(root + "." + facade_accepts)
+            dds.accept_module(root + ".app")
+            main_src = "import dds\nimport %s\nimport %s as pkg\n\ndef top():\n    return %s.clean(10) + pkg.clean(1)\n" % (root, root, root)
+            mod = w.write_module(root + ".app", main_src, accept=False)
+            case = {"facade_package": "ROOT/__init__.py: from .core.steps import clean, RATE", "accepted": ["ROOT." + facade_accepts, "ROOT.app"],
+                    "caller": main_src.replace(root, "ROOT")}
+            res.evaluations += 1
+            res.nontrivial(case)
+            res.count("e2e_facade")
+
+            def sig_of_f():
+                store.synced.clear()
+                try:
+                    v = dds.keep("/pf", mod.top)
+                    return ("ok", store.synced[-1]["/pf"], v)
+                except BaseException as e:
+                    ws.reset_dds_state()
+                    return ("exc", type(e).__name__, str(e)[:160])
+            f1 = sig_of_f()
+            w.rewrite_module(root + ".core.steps", steps_src(2, 1))
+            importlib.reload(sys.modules[root])
+            mod = w.rewrite_module(root + ".app", main_src)
+            f2 = sig_of_f()
+            w.rewrite_module(root + ".core.steps", steps_src(2, 5))
+            importlib.reload(sys.modules[root])
+            mod = w.rewrite_module(root + ".app", main_src)
+            f3 = sig_of_f()
+            if f1[0] != "ok" or f2[0] != "ok" or f3[0] != "ok":
+                if not (f1[0] == f2[0] == f3[0] == "exc" and f1[1] == "DDSException"):
+                    res.violations.append({"what": "a function reached through a package that re-exports it is not evaluated consistently: %s, %s, %s" % (f1, f2, f3), "input": case, "kf": None})
+            elif f2[1] == f1[1] or f2[2] != "clean2(10)clean2(1)" or f3[1] != f2[1] or f3[2] != "clean2(10)clean2(1)":
+                res.violations.append({"what": "editing a function / a variable of an accepted sub-module, reached through the package that re-exports them, did not change "
+                                               "the signature / value: %s -> %s -> %s" % (f1, f2, f3), "input": case, "kf": None})
     for p in list(_accepted_packages):
         if p not in before:
             _accepted_packages.discard(p)
